@@ -282,6 +282,10 @@ struct Gen
             tweakPass();
         if (plan.prop != "C06" || plan.cfgGet("sweep", 0) == 0)
             literalPass();
+        // a third of the runs of the families whose senders may be hostile or foreign: frames derived from the comparison
+        // operands of the decode calls (world.cpp, deriveFromComparisons; asan variant)
+        if ((plan.prop == "C02" || plan.prop == "C04" || plan.prop == "C15" || plan.prop == "C17" || plan.prop == "C18") && rng.chance(1, 3))
+            cfg().set("cmpfb", 1);
         lifePass();
         std::stable_sort(plan.items.begin(), plan.items.end(), [](const Item& a, const Item& b) {
             const bool ao = a.tag == "op", bo = b.tag == "op";
